@@ -487,7 +487,7 @@ func hookABStr(d *B, s *A, n string)           {}
 func famHookShapes(t *tgen) {
 	t.feat("family:hook-shape-grid")
 	var types strings.Builder
-	fmt.Fprintf(&types, "package %s\n\ntype A struct{ X int }\ntype B struct{ X int }\n\n", t.name)
+	fmt.Fprintf(&types, "package %s\n\ntype A struct{ X int }\ntype B struct{ X int }\ntype MyInt int\ntype Fn func()\ntype Ints []int\ntype Xer interface{ GetX() int }\n\nfunc (a A) GetX() int  { return a.X }\nfunc (b *B) GetX() int { return b.X }\n\n", t.name)
 	var sb strings.Builder
 	sb.WriteString(header(t))
 	sb.WriteString("type Convergen interface {\n")
@@ -497,13 +497,33 @@ func famHookShapes(t *tgen) {
 			if t.ch(0.4) {
 				continue
 			}
-			hd, hs := t.pick("*B", "B"), t.pick("*A", "A")
+			// operand sides: the exact types, or types related to them in one direction only
+			hd, hs := t.pick("*B", "B", "*B", "B", "interface{}", "Xer"), t.pick("*A", "A", "*A", "A", "interface{}", "Xer")
 			ret, body := "", "{}"
 			withErr := t.ch(0.4)
 			if withErr {
 				ret, body = " error", "{ return nil }"
 			}
-			fmt.Fprintf(&types, "func h%d(d %s, s %s)%s %s\n", k, hd, hs, ret, body)
+			// additional arguments: method side and hook side drawn independently from types whose
+			// assignability is not symmetric (int / interface{} / named int / func types)
+			extraM, extraH := "", ""
+			if t.ch(0.5) {
+				pool := []string{"int", "interface{}", "MyInt", "string", "any", "func()", "Fn", "[]int", "Ints"}
+				n := 1 + t.r.Intn(2)
+				for i := 0; i < n; i++ {
+					mt := pool[t.r.Intn(len(pool))]
+					ht := mt
+					if t.ch(0.6) {
+						ht = pool[t.r.Intn(len(pool))]
+					}
+					extraM += fmt.Sprintf(", v%d %s", i, mt)
+					extraH += fmt.Sprintf(", v%d %s", i, ht)
+				}
+				if t.ch(0.15) {
+					extraH += ", more int"
+				}
+			}
+			fmt.Fprintf(&types, "func h%d(d %s, s %s%s)%s %s\n", k, hd, hs, extraH, ret, body)
 			fmt.Fprintf(&sb, "\t// :%s h%d\n", t.pick("preprocess", "postprocess"), k)
 			if t.ch(0.35) {
 				sb.WriteString("\t// :style arg\n")
@@ -512,7 +532,11 @@ func famHookShapes(t *tgen) {
 			if withErr || t.ch(0.3) {
 				res = "(" + dp + ", error)"
 			}
-			fmt.Fprintf(&sb, "\tM%d(%s) %s\n", k, sp, res)
+			srcDecl := sp
+			if extraM != "" {
+				srcDecl = "s " + sp
+			}
+			fmt.Fprintf(&sb, "\tM%d(%s%s) %s\n", k, srcDecl, extraM, res)
 			k++
 		}
 	}
